@@ -39,6 +39,41 @@ CHECKS = {
             'revert only after a backup since the last reset/re-mesh; manual re-meshing keeps >= minBins/2+1 classes; recording in '
             'adaptive mode only while bins <= maxBins (as the models guarantee).',
             '2/C08'),
+    'C01': ('model_checking',
+            'per-step trajectory monitoring of full configuration products on the real PrecipitateModel with owned (analytic) thermodynamics',
+            'Every accepted step of every run of full Cartesian products of configurations (binary/ternary, 1-2 (thorough 3) phases, site '
+            'types, Vm ratios, Euler/RK4, isothermal/heating/cooling/multi-segment schedules, infinite/no precipitate diffusion, 1 or 3 solve '
+            'calls, shapes, PBM grids, adaptive on/off, preloaded PSD, default step growth) is a state on which the solute balance is '
+            'evaluated from the distribution captured for that step, with molar volumes, Clemm-Fisher volume factors and precipitate '
+            'compositions taken from the configuration/backend, not from the model; tolerance 1e-9 (1e-5 for the accumulated no-diffusion mode).',
+            'Analytic dilute-ideal backends stand in for pycalphad (mc/synth_thermo.py); the monitor wraps three private methods on the '
+            'instance it created (_calcMassBalance, _appendArrays, _calcNucleationRate) and fails loudly if they vanish; horizon 8000 steps.',
+            '2/C01'),
+    'C04': ('model_checking',
+            'per-step trajectory monitoring of full configuration products on the real diffusion models with an owned environment',
+            'Every accepted step of every run of the full product model x elements x mesh size x initial profile x boundary-condition mix per '
+            'element and side x iterator x 1-3 solve calls x temperature specification is checked for: mesh-sum change == (J_left - '
+            'J_right)*dt/dz per component, fixed-composition nodes bit-identical in every state and across solve calls, bounds, strictly '
+            'increasing time stamps; analytic D(x)/mobility providers for the large product, real pycalphad backends for a smaller one.',
+            'For RK4 with a composition BC the flux identity is not asserted (copied flux differs per stage); configurations where '
+            'HomogenizationModel raises for lack of any flux difference are excluded; clip steps are absent from the conservation product.',
+            '2/C04'),
+    'C06': ('exploration',
+            'exhaustive lattice of closed-form ODE systems x step ladders x call paths; bit-exact stage-time and state-immutability checks',
+            'Observed order of accuracy of both iterators on 9 closed-form systems (4 autonomous, 5 time-dependent incl. a temperature-ramp '
+            'Arrhenius decay) from dyadic step ladders validated by an independent reference integrator; RK4 stage times compared bit for '
+            'bit with (t, t+dt/2, t+dt/2, t+dt) over a (t,h) lattice through three call paths; state vector bytes compared before/after every '
+            'iterator call, also when the derivative object aliases the state.',
+            'Order is only measured where the reference integrator shows the asymptotic regime (errors above 1e-13).',
+            '2/C06'),
+    'C15': ('exploration',
+            'exhaustive aspect-ratio lattice against numerical quadrature; argument-form product; BFS over ShapeFactor setter histories',
+            'Semi-axes, equivalent-radius, thermodynamic (spheroid area) and kinetic (capacitance) factors of all four shapes compared with '
+            'independent scipy quadrature over an aspect-ratio lattice on [1,100] dense near 1; continuity at 1 from the next float above; '
+            '13 argument forms (scalars, lists, int/float/strided/0-d arrays) compared bitwise with scalar calls and for argument '
+            'immutability; findRcrit residuals for bracketed roots; all ShapeFactor setter/query histories to closure against fresh objects.',
+            'Quadrature tolerance 1e-8; continuity tolerance 1e-6 as the statement requires.',
+            '2/C15'),
 }
 
 NOT_YET = {}
